@@ -213,10 +213,11 @@ func c01R8(ic *IC, r *Report, rule string, only map[string]bool) {
 	}
 }
 
-// R01.9: ranging over a string yields byte offsets. The range generator iterates over the
-// runes of the string, so every variant installed for a string operand must derive the key
-// from the byte length of the converted prefix (reflect.Value.Convert to string, then Len);
-// the key-only form `for i := range s` is a sibling of the key-value form and must do the same.
+// R01.9: ranging over a string yields the byte offset of each rune, an invalid byte counting
+// for one rune of width 1. Every variant installed for a string operand must decode the bytes
+// of the string itself (utf8.DecodeRuneInString): going through a []rune loses the width of
+// invalid bytes. The key-only form `for i := range s` is a sibling of the key-value form and
+// must do the same.
 func c01R9(ic *IC, r *Report) {
 	fi := ic.fn(r, "_range")
 	if fi == nil {
@@ -233,18 +234,18 @@ func c01R9(ic *IC, r *Report) {
 			return true
 		}
 		n++
-		// the string arm installs its own closure computing a byte position
-		converts := false
+		// the string arm installs its own closure decoding the bytes of the string
+		decodes := false
 		ast.Inspect(ifs.Body, func(m ast.Node) bool {
 			if fl, ok := m.(*ast.FuncLit); ok && isFrameClosure(ic.Info, fl) {
-				if len(callsIn(ic.Info, fl.Body, true, "reflect.Value.Convert")) > 0 {
-					converts = true
+				if len(callsIn(ic.Info, fl.Body, true, "unicode/utf8.DecodeRuneInString", "unicode/utf8.DecodeRune")) > 0 {
+					decodes = true
 				}
 			}
 			return true
 		})
-		r.Check(converts, "R01.9", fmt.Sprintf("_range/string-variant#%d/byte-offsets", n), ic.pos(ifs.Pos()), "the string variant derives the key from the byte length of the converted prefix",
-			"this variant of the range generator for string operands installs no closure converting the rune prefix back to a string (reflect.Value.Convert): the key is the index of the rune, not its byte offset, so for i := range \"héy\" yields 0 1 2 where compiled Go yields 0 1 3")
+		r.Check(decodes, "R01.9", fmt.Sprintf("_range/string-variant#%d/byte-offsets", n), ic.pos(ifs.Pos()), "the string variant decodes the runes from the bytes of the string",
+			"this variant of the range generator for string operands installs no closure decoding the string with utf8.DecodeRuneInString: a key that is the index of the rune (for i := range \"héy\" yields 0 1 2, compiled Go 0 1 3), or a byte position recomputed by converting a []rune prefix back to a string (an invalid byte becomes U+FFFD, three bytes wide: for i := range \"a\\xffb\" yields 0 1 4, compiled Go 0 1 2), is not the position of the rune in the string")
 		return true
 	})
 	if n < 2 {
@@ -780,4 +781,95 @@ func assignedIn(info *types.Info, n ast.Node, v types.Object) bool {
 		return !found
 	})
 	return found
+}
+
+// R01.16: a fallthrough transfers control to the clause that follows in the *source*, and the
+// case expressions are evaluated in source order; only the default clause is tested last. cfg
+// moves the default clause to the end of the clause list, so (a) it must not do so by
+// exchanging two elements of a child list (the clause that was last takes the place of the
+// default: its expression is evaluated first and it becomes the target of the preceding
+// clause's fallthrough), and (b) where a clause ending in a fallthrough is wired, the target
+// is not taken by position in that list (clauses[i+1]).
+func c01R16(ic *IC, r *Report) {
+	fi := ic.fn(r, "Interpreter.cfg")
+	if fi == nil {
+		return
+	}
+	info := ic.Info
+	isNodeSlice := func(e ast.Expr) bool {
+		t := info.TypeOf(e)
+		if t == nil {
+			return false
+		}
+		sl, ok := t.Underlying().(*types.Slice)
+		return ok && isNamedPtr(sl.Elem(), "node")
+	}
+	nSwap := 0
+	ast.Inspect(fi.Decl.Body, func(m ast.Node) bool {
+		as, ok := m.(*ast.AssignStmt)
+		if !ok || len(as.Lhs) != 2 || len(as.Rhs) != 2 || as.Tok != token.ASSIGN {
+			return true
+		}
+		l0, ok0 := unparen(as.Lhs[0]).(*ast.IndexExpr)
+		l1, ok1 := unparen(as.Lhs[1]).(*ast.IndexExpr)
+		if !ok0 || !ok1 || !isNodeSlice(l0.X) || !isNodeSlice(l1.X) {
+			return true
+		}
+		if types.ExprString(as.Lhs[0]) == types.ExprString(as.Rhs[1]) && types.ExprString(as.Lhs[1]) == types.ExprString(as.Rhs[0]) {
+			nSwap++
+			r.Fail("R01.16", fmt.Sprintf("cfg/children-exchanged#%d", nSwap), ic.pos(as.Pos()),
+				"cfg exchanges two children of a node ("+types.ExprString(as.Lhs[0])+" <-> "+types.ExprString(as.Lhs[1])+"): moving the default clause of a switch to the end this way puts the last clause in its place, so the case expressions are no longer evaluated in source order and the fallthrough of the clause before the default lands in that other clause (case 1: fallthrough; default: ...; case 2: ... runs case 2)")
+		}
+		return true
+	})
+	if nSwap == 0 {
+		r.Pass("R01.16", "cfg/no-children-exchanged", ic.pos(fi.Decl.Pos()), "no parallel assignment exchanges two elements of a []*node")
+	}
+	// (b) fallthrough targets
+	n := 0
+	ast.Inspect(fi.Decl.Body, func(m ast.Node) bool {
+		ifs, ok := m.(*ast.IfStmt)
+		if !ok {
+			return true
+		}
+		mentions := false
+		ast.Inspect(ifs.Cond, func(k ast.Node) bool {
+			if id, ok := k.(*ast.Ident); ok {
+				if c, ok := info.Uses[id].(*types.Const); ok && c.Name() == "fallthroughtStmt" {
+					mentions = true
+				}
+			}
+			return true
+		})
+		if !mentions {
+			return true
+		}
+		ast.Inspect(ifs.Body, func(k ast.Node) bool {
+			as, ok := k.(*ast.AssignStmt)
+			if !ok || len(as.Lhs) != 1 || len(as.Rhs) != 1 {
+				return true
+			}
+			se, ok := unparen(as.Lhs[0]).(*ast.SelectorExpr)
+			if !ok || se.Sel.Name != "tnext" {
+				return true
+			}
+			n++
+			positional := ""
+			ast.Inspect(as.Rhs[0], func(q ast.Node) bool {
+				if ix, ok := q.(*ast.IndexExpr); ok && isNodeSlice(ix.X) {
+					if be, ok := unparen(ix.Index).(*ast.BinaryExpr); ok && be.Op == token.ADD {
+						positional = types.ExprString(ix)
+					}
+				}
+				return true
+			})
+			r.Check(positional == "", "R01.16", fmt.Sprintf("cfg/fallthrough-target#%d/next-in-source", n), ic.pos(as.Pos()), "the target of the fallthrough is not taken by position in the clause list",
+				"cfg wires the fallthrough at the end of a clause to "+positional+", the next element of the clause list, in which the default clause has been moved to the end: the clause that follows in the source is another one when a default clause stands before the last position")
+			return true
+		})
+		return true
+	})
+	if n < 2 {
+		r.Errorf("R01.16: %d fallthrough wirings found in cfg (the tagged and the tagless switch are expected)", n)
+	}
 }
